@@ -262,7 +262,7 @@ Section CowOps.
           * now apply scalar_mv_plain.
         + intros h [[I Fh] L]. split; auto.
         + intros r h [[Iv [Fh L]] R]. split; [split; auto|].
-          destruct R as [->|[->|R]]; [exact I|exact L|exact R].
+          destruct R as [[-> _]|[->|R]]; [exact I|exact L|exact R].
         + intros h [I [Fh _]]. split; auto.
       - intros v'. rewrite Ec. apply T_ret. auto. }
     unfold prepare_attr_value. destruct v; try exact B. apply T_ret. auto.
